@@ -1,3 +1,690 @@
-//! C45 (placeholder, filled in below)
+//! C45 replayer / recorder (spec/GitPush.tla).
+//!
+//! World: a bare remote repository, jj's Git-backed repository with remote
+//! "origin" pointing at it, and a second clone ("other") that pushes to the
+//! same remote with the real `git push`.  Actions: JjSet/JjDelete (local
+//! bookmark), OtherSet/OtherDelete (the other clone force-pushes / deletes a
+//! branch on the remote), Fetch (jj_lib::git::GitFetch + import), Push(S)
+//! (what `jj git push` does for the bookmarks in S: classify_ref_push_action,
+//! then jj_lib::git::push_refs, i.e. the real `git push --force-with-lease`).
+//! After every action the state is projected and logged; TLC judges.
+use std::collections::BTreeSet;
+use std::collections::HashMap;
+use std::io;
+use std::panic::AssertUnwindSafe;
+use std::path::PathBuf;
+use std::sync::Arc;
+
+use jj_lib::backend::CommitId;
+use jj_lib::git;
+use jj_lib::git::GitImportOptions;
+use jj_lib::git::GitPushOptions;
+use jj_lib::git::GitPushRefTargets;
+use jj_lib::git::GitSidebandLineTerminator;
+use jj_lib::git::GitSubprocessCallback;
+use jj_lib::git::GitSubprocessOptions;
+use jj_lib::object_id::ObjectId as _;
+use jj_lib::op_store::RefTarget;
+use jj_lib::op_store::RemoteRef;
+use jj_lib::op_store::RemoteRefState;
+use jj_lib::ref_name::RefName;
+use jj_lib::ref_name::RefNameBuf;
+use jj_lib::ref_name::RemoteRefSymbol;
+use jj_lib::refs::LocalAndRemoteRef;
+use jj_lib::refs::RefPushAction;
+use jj_lib::refs::classify_ref_push_action;
+use jj_lib::repo::ReadonlyRepo;
+use jj_lib::repo::Repo;
+use jj_lib::str_util::StringMatcher;
 use jjconf::util::Opts;
-pub fn run(_opts: &Opts) -> Result<(), String> { Err("not yet".into()) }
+use jjconf::util::Out;
+use jjconf::util::Rng;
+use jjconf::util::catch;
+use jjconf::util::quiet_panics;
+use jjconf::util::read_ndjson;
+use pollster::FutureExt as _;
+use serde_json::Value;
+use serde_json::json;
+use testutils::TestRepo;
+use testutils::TestRepoBackend;
+
+use crate::common::Commits;
+use crate::common::RefWriter;
+use crate::common::create_git_commit;
+use crate::common::create_jj_commit;
+use crate::common::git;
+use crate::common::git_backend;
+use crate::common::git_refs;
+use crate::common::has_id;
+use crate::common::list_refs;
+use crate::common::read_ref;
+use crate::common::usizes;
+
+const MAX_BM: usize = 3;
+
+struct NullCallback;
+impl GitSubprocessCallback for NullCallback {
+    fn needs_progress(&self) -> bool {
+        false
+    }
+    fn progress(&mut self, _progress: &git::GitProgress) -> io::Result<()> {
+        Ok(())
+    }
+    fn local_sideband(&mut self, _m: &[u8], _t: Option<GitSidebandLineTerminator>) -> io::Result<()> {
+        Ok(())
+    }
+    fn remote_sideband(&mut self, _m: &[u8], _t: Option<GitSidebandLineTerminator>) -> io::Result<()> {
+        Ok(())
+    }
+}
+
+fn bname(b: usize) -> String {
+    format!("bk{b}")
+}
+fn headref(b: usize) -> String {
+    format!("refs/heads/bk{b}")
+}
+fn trackref(b: usize) -> String {
+    format!("refs/remotes/origin/bk{b}")
+}
+fn origin_sym(name: &RefName) -> RemoteRefSymbol<'_> {
+    RemoteRefSymbol { name, remote: "origin".as_ref() }
+}
+
+fn import_options() -> GitImportOptions {
+    let mut auto = HashMap::new();
+    auto.insert("origin".into(), StringMatcher::all());
+    GitImportOptions {
+        abandon_unreachable_commits: true,
+        record_synthetic_predecessors: true,
+        remote_auto_track_bookmarks: auto,
+    }
+}
+
+struct Env {
+    _test_repo: TestRepo,
+    _dir: tempfile::TempDir,
+    repo: Arc<ReadonlyRepo>,
+    git_dir: PathBuf,    // jj's backing Git repository
+    remote_dir: PathBuf, // the bare remote
+    other_dir: PathBuf,  // the second clone (bare, remote "origin")
+    remote_writer: RefWriter, // `verify`, wiping between cases, fast-mode edits of the remote
+    jj_writer: RefWriter,     // wiping between cases, fast-mode fetch
+    par: Vec<Vec<usize>>,
+    jj_ids: Vec<Option<CommitId>>,
+    cases: usize,
+}
+
+struct Case<'a> {
+    env: &'a mut Env,
+    commits: Commits,
+    nb: usize,
+    /// commits whose objects the remote does not have yet (created in the
+    /// other clone for this case)
+    other_only: Vec<usize>,
+    /// commits whose objects jj's Git repository does not have yet
+    jj_lacks: Vec<usize>,
+    /// true: every OtherSet/OtherDelete is a real `git push` from the other
+    /// clone; false: when the remote already has the objects, the remote's
+    /// branch is moved by the real git in the remote repository itself
+    /// (`git update-ref`, no process spawn) - the same effect on the remote;
+    /// likewise the transport half of Fetch copies the remote's branch
+    /// positions into refs/remotes/origin/* with `git update-ref` when no
+    /// object has to travel
+    real_other_push: bool,
+}
+
+impl Env {
+    fn new(par: &[Vec<usize>]) -> Result<Self, String> {
+        let dir = testutils::new_temp_dir();
+        let remote_dir = dir.path().join("remote.git");
+        let other_dir = dir.path().join("other.git");
+        testutils::git::init_bare(&remote_dir);
+        testutils::git::init_bare(&other_dir);
+        let url = remote_dir.to_str().unwrap().to_string();
+        git(&other_dir, &["remote", "add", "origin", &url])?;
+        // no background repacking while the harness reads ref files
+        for d in [&remote_dir, &other_dir] {
+            use std::io::Write as _;
+            let mut f = std::fs::OpenOptions::new()
+                .append(true)
+                .open(d.join("config"))
+                .map_err(|e| e.to_string())?;
+            f.write_all(b"[gc]\n\tauto = 0\n[receive]\n\tautogc = false\n")
+                .map_err(|e| e.to_string())?;
+        }
+        let test_repo = TestRepo::init_with_backend(TestRepoBackend::Git);
+        let repo = test_repo.repo.clone();
+        let mut tx = repo.start_transaction();
+        git::add_remote(tx.repo_mut(), "origin".as_ref(), &url, None).map_err(|e| format!("add_remote: {e}"))?;
+        tx.commit("add remote").block_on().map_err(|e| e.to_string())?;
+        // reload, as every jj command does: the remote lives in the Git config read at load time
+        let repo = test_repo
+            .env
+            .load_repo_at_head(&testutils::user_settings(), test_repo.repo_path());
+        let git_dir = git_backend(&repo).git_repo_path().to_owned();
+        let remote_writer = RefWriter::new(&remote_dir)?;
+        let jj_writer = RefWriter::new(&git_dir)?;
+        Ok(Self {
+            _test_repo: test_repo,
+            _dir: dir,
+            repo,
+            git_dir,
+            remote_dir,
+            other_dir,
+            remote_writer,
+            jj_writer,
+            par: par.to_vec(),
+            jj_ids: vec![None; par.len()],
+            cases: 0,
+        })
+    }
+
+    /// Start a case.  Commits not in `otheronly` are created through jj (once
+    /// per Env) and handed to the other clone through refs/keep/* on the
+    /// remote; `otheronly` commits are created in the other clone for this
+    /// case (jj learns them only by fetching a branch that points to them).
+    fn start(&mut self, otheronly: &[usize], nb: usize, real_other_push: bool) -> Result<Case<'_>, String> {
+        self.cases += 1;
+        let mut commits = Commits::new();
+        let mut tx = self.repo.start_transaction();
+        let mut dirty = false;
+        let mut new_jj: Vec<(usize, String)> = vec![];
+        for (i, ps) in self.par.clone().iter().enumerate() {
+            let k = i + 1;
+            if otheronly.contains(&k) {
+                commits.push(CommitId::from_bytes(&[0; 20])); // placeholder, filled below
+                continue;
+            }
+            if ps.iter().any(|p| otheronly.contains(p)) {
+                return Err("jj commit with an other-only parent".into());
+            }
+            if self.jj_ids[i].is_none() {
+                let c = create_jj_commit(tx.repo_mut(), &commits, ps, k);
+                self.jj_ids[i] = Some(c.id().clone());
+                new_jj.push((k, c.id().hex()));
+                dirty = true;
+            }
+            commits.push(self.jj_ids[i].clone().unwrap());
+        }
+        // wipe jj's records of the model bookmarks
+        for b in 1..=MAX_BM {
+            let n = bname(b);
+            let name: &RefName = n.as_str().as_ref();
+            let m = tx.repo_mut();
+            let d = m.view().get_local_bookmark(name).is_present()
+                || m.view().get_remote_bookmark(origin_sym(name)).is_present()
+                || m.view().get_git_ref(trackref(b).as_str().as_ref()).is_present()
+                || m.view().get_git_ref(headref(b).as_str().as_ref()).is_present()
+                || m.view()
+                    .get_remote_bookmark(RemoteRefSymbol { name, remote: "git".as_ref() })
+                    .is_present();
+            if d {
+                dirty = true;
+                m.set_local_bookmark_target(name, RefTarget::absent());
+                m.set_git_ref_target(trackref(b).as_str().as_ref(), RefTarget::absent());
+                m.set_git_ref_target(headref(b).as_str().as_ref(), RefTarget::absent());
+                let gone = RemoteRef { target: RefTarget::absent(), state: RemoteRefState::New };
+                m.set_remote_bookmark(origin_sym(name), gone.clone());
+                m.set_remote_bookmark(RemoteRefSymbol { name, remote: "git".as_ref() }, gone);
+            }
+        }
+        if dirty {
+            self.repo = tx.commit("case setup").block_on().map_err(|e| e.to_string())?;
+        }
+        // hand new jj commits to the remote and the other clone
+        if !new_jj.is_empty() {
+            let mut args: Vec<String> = vec!["push".into(), "-q".into(), "origin".into()];
+            for (k, hex) in &new_jj {
+                args.push(format!("{hex}:refs/keep/c{k}"));
+            }
+            let a: Vec<&str> = args.iter().map(|s| s.as_str()).collect();
+            git(&self.git_dir, &a)?;
+            git(&self.other_dir, &["fetch", "-q", "origin", "+refs/keep/*:refs/keep/*"])?;
+        }
+        // this case's other-only commits
+        if !otheronly.is_empty() {
+            let other = testutils::git::open(&self.other_dir);
+            let mut real = Commits::new();
+            for (i, ps) in self.par.clone().iter().enumerate() {
+                let k = i + 1;
+                if otheronly.contains(&k) {
+                    let id = create_git_commit(&other, &real, ps, &format!("case{}-c{k}", self.cases))?;
+                    real.push(id);
+                } else {
+                    real.push(commits.id(k).clone());
+                }
+            }
+            commits = real;
+        }
+        // wipe the Git-level refs: remote branches, jj's remote-tracking refs and local branches
+        for b in 1..=MAX_BM {
+            if read_ref(&self.remote_dir, &headref(b)).is_some() {
+                self.remote_writer.delete(&headref(b))?;
+            }
+            for r in [trackref(b), headref(b)] {
+                if read_ref(&self.git_dir, &r).is_some() {
+                    self.jj_writer.delete(&r)?;
+                }
+            }
+        }
+        Ok(Case {
+            env: self,
+            commits,
+            nb,
+            other_only: otheronly.to_vec(),
+            jj_lacks: otheronly.to_vec(),
+            real_other_push,
+        })
+    }
+}
+
+impl Case<'_> {
+    fn project(&mut self) -> Result<Value, String> {
+        let repo = self.env.repo.clone();
+        self.project_repo(repo.as_ref())
+    }
+
+    fn project_repo(&mut self, repo: &dyn Repo) -> Result<Value, String> {
+        let view = repo.view();
+        let (mut local, mut track, mut tracked, mut remote, mut gtrack, mut seenr) = (vec![], vec![], vec![], vec![], vec![], vec![]);
+        let rrefs = list_refs(&self.env.remote_dir, "refs/heads");
+        let mut to_verify = vec![];
+        let names: Vec<String> = (1..=self.nb).map(bname).collect();
+        for (i, n) in names.iter().enumerate() {
+            let b = i + 1;
+            let name: &RefName = n.as_str().as_ref();
+            local.push(self.commits.target(view.get_local_bookmark(name)));
+            let rr = view.get_remote_bookmark(origin_sym(name));
+            track.push(self.commits.single(&rr.target));
+            tracked.push(rr.is_tracked());
+            remote.push(rrefs.get(n).map_or(0, |h| self.commits.num_hex(h)));
+            to_verify.push((headref(b), rrefs.get(n).cloned()));
+            gtrack.push(read_ref(&self.env.git_dir, &trackref(b)).map_or(0, |h| self.commits.num_hex(&h)));
+            seenr.push(self.commits.single(view.get_git_ref(trackref(b).as_str().as_ref())));
+        }
+        self.env.remote_writer.verify(&to_verify)?;
+        let mut extra: BTreeSet<String> = BTreeSet::new();
+        for n in rrefs.keys() {
+            if !names.contains(n) {
+                extra.insert(format!("remote:{n}"));
+            }
+        }
+        for (n, _) in view.local_bookmarks() {
+            if !names.iter().any(|x| x == n.as_str()) {
+                extra.insert(format!("local:{}", n.as_str()));
+            }
+        }
+        let known: Vec<usize> = (1..=self.commits.ids.len())
+            .filter(|&k| has_id(repo, self.commits.id(k)))
+            .collect();
+        Ok(json!({"local": local, "track": track, "tracked": tracked, "remote": remote,
+                  "gtrack": gtrack, "seenr": seenr, "known": known,
+                  "extra": extra.into_iter().collect::<Vec<_>>()}))
+    }
+
+    fn jj_set(&mut self, b: usize, target: RefTarget) -> Result<(), String> {
+        let mut tx = self.env.repo.start_transaction();
+        tx.repo_mut()
+            .set_local_bookmark_target(bname(b).as_str().as_ref(), target);
+        self.env.repo = tx.commit("jj set").block_on().map_err(|e| e.to_string())?;
+        Ok(())
+    }
+
+    fn subprocess_options(&self) -> GitSubprocessOptions {
+        GitSubprocessOptions {
+            executable_path: "git".into(),
+            environment: HashMap::new(),
+        }
+    }
+
+    /// Refresh jj's knowledge of the remote: `git fetch --prune` (the git CLI:
+    /// the installed git 2.39 lacks `fetch --porcelain`, which GitFetch needs)
+    /// followed by the real jj_lib::git::import_refs with origin auto-tracked.
+    fn fetch(&mut self) -> Result<Value, String> {
+        let rrefs = list_refs(&self.env.remote_dir, "refs/heads");
+        let needs_objects = rrefs
+            .values()
+            .any(|h| self.jj_lacks.contains(&self.commits.num_hex(h)));
+        let how;
+        if self.real_other_push || needs_objects {
+            git(&self.env.git_dir, &["fetch", "-q", "--prune", "--no-tags", "origin", "+refs/heads/*:refs/remotes/origin/*"])?;
+            let par = self.env.par.clone();
+            let mut stack: Vec<usize> = rrefs.values().map(|h| self.commits.num_hex(h)).filter(|&k| k <= par.len()).collect();
+            while let Some(k) = stack.pop() {
+                self.jj_lacks.retain(|&x| x != k);
+                stack.extend(par[k - 1].iter().copied());
+            }
+            how = "git fetch";
+        } else {
+            for b in 1..=self.nb {
+                match rrefs.get(&bname(b)) {
+                    Some(hex) => self.env.jj_writer.update(&trackref(b), hex)?,
+                    None => {
+                        if read_ref(&self.env.git_dir, &trackref(b)).is_some() {
+                            self.env.jj_writer.delete(&trackref(b))?;
+                        }
+                    }
+                }
+            }
+            how = "refs copied with git update-ref";
+        }
+        let mut tx = self.env.repo.start_transaction();
+        let opts = import_options();
+        let stats = git::import_refs(tx.repo_mut(), &opts)
+            .block_on()
+            .map_err(|e| format!("fetch import: {e}"))?;
+        tx.repo_mut()
+            .rebase_descendants()
+            .block_on()
+            .map_err(|e| format!("rebase_descendants: {e}"))?;
+        let changed: Vec<String> = stats
+            .changed_remote_bookmarks
+            .iter()
+            .map(|u| format!("{}@{}", u.symbol.name.as_str(), u.symbol.remote.as_str()))
+            .collect();
+        self.env.repo = tx.commit("fetch").block_on().map_err(|e| e.to_string())?;
+        Ok(json!({"changed": changed, "how": how}))
+    }
+
+    /// what `jj git push --bookmark ...` does for the bookmarks in `set`
+    fn push(&mut self, set: &[usize], rec: &mut Value) -> Result<(), String> {
+        let view = self.env.repo.view();
+        let mut targets = GitPushRefTargets::default();
+        let mut skipped: Vec<Value> = vec![];
+        let mut asked: Vec<usize> = vec![];
+        for &b in set {
+            let n = bname(b);
+            let name: &RefName = n.as_str().as_ref();
+            let lr = LocalAndRemoteRef {
+                local_target: view.get_local_bookmark(name),
+                remote_ref: view.get_remote_bookmark(origin_sym(name)),
+            };
+            match classify_ref_push_action(lr) {
+                RefPushAction::Update(diff) => {
+                    targets.bookmarks.push((RefNameBuf::from(n.as_str()), diff));
+                    asked.push(b);
+                }
+                other => skipped.push(json!([b, format!("{other:?}")])),
+            }
+        }
+        rec["asked"] = json!(asked);
+        rec["skipped"] = json!(skipped);
+        let idx = |full: &str| -> usize { (1..=self.nb).find(|&k| headref(k) == full).unwrap_or(99) };
+        if targets.bookmarks.is_empty() {
+            rec["pushed"] = json!([]);
+            rec["rejected"] = json!([]);
+            rec["remote_rejected"] = json!([]);
+            rec["unexported"] = json!([]);
+            rec["err"] = json!("");
+            return Ok(());
+        }
+        let mut tx = self.env.repo.start_transaction();
+        let r = git::push_refs(
+            tx.repo_mut(),
+            self.subprocess_options(),
+            "origin".as_ref(),
+            &targets,
+            &mut NullCallback,
+            &GitPushOptions::default(),
+        );
+        match r {
+            Ok(stats) => {
+                let mut pushed: Vec<usize> = stats.pushed.iter().map(|n| idx(n.as_str())).collect();
+                let mut rejected: Vec<usize> = stats.rejected.iter().map(|(n, _)| idx(n.as_str())).collect();
+                let mut rr: Vec<usize> = stats.remote_rejected.iter().map(|(n, _)| idx(n.as_str())).collect();
+                pushed.sort();
+                rejected.sort();
+                rr.sort();
+                rec["pushed"] = json!(pushed);
+                rec["rejected"] = json!(rejected);
+                rec["remote_rejected"] = json!(rr);
+                rec["reasons"] = json!(stats.rejected.iter().map(|(n, r)| format!("{}: {:?}", n.as_str(), r)).collect::<Vec<_>>());
+                rec["unexported"] = json!(stats.unexported_bookmarks.iter().map(|(s, r)| format!("{}: {r:?}", s.name.as_str())).collect::<Vec<_>>());
+                rec["err"] = json!("");
+                // the CLI commits the transaction whatever was rejected
+                self.env.repo = tx.commit("push").block_on().map_err(|e| e.to_string())?;
+            }
+            Err(e) => {
+                // the CLI drops the transaction on error
+                rec["pushed"] = json!([]);
+                rec["rejected"] = json!([]);
+                rec["remote_rejected"] = json!([]);
+                rec["unexported"] = json!([]);
+                rec["err"] = json!(format!("{e}").lines().take(4).collect::<Vec<_>>().join(" | "));
+            }
+        }
+        Ok(())
+    }
+
+    /// a plain import in a transaction that is never committed: after jj's own
+    /// fetch/push its records must already describe its Git repository
+    fn import_probe(&mut self) -> Result<bool, String> {
+        let mut tx = self.env.repo.start_transaction();
+        git::import_refs(tx.repo_mut(), &import_options())
+            .block_on()
+            .map_err(|e| format!("import probe: {e}"))?;
+        Ok(tx.repo().has_changes())
+    }
+
+    fn step(&mut self, s: &Value) -> Value {
+        let a = s["a"].as_str().unwrap_or("").to_string();
+        let b = s["b"].as_u64().unwrap_or(0) as usize;
+        let c = s["c"].as_u64().unwrap_or(0) as usize;
+        let set = usizes(&s["set"]);
+        let mut rec = json!({"op": a, "b": b, "c": c, "set": set});
+        let r: Result<Result<(), String>, String> = catch(AssertUnwindSafe(|| -> Result<(), String> {
+            match a.as_str() {
+                "JjSet" => self.jj_set(b, RefTarget::normal(self.commits.id(c).clone()))?,
+                "JjDelete" => self.jj_set(b, RefTarget::absent())?,
+                "OtherSet" => {
+                    if self.real_other_push || self.other_only.contains(&c) {
+                        let spec = format!("+{}:{}", self.commits.hex(c), headref(b));
+                        git(&self.env.other_dir, &["push", "-q", "origin", &spec])?;
+                        // its whole ancestry is on the remote now
+                        let par = self.env.par.clone();
+                        let mut stack = vec![c];
+                        while let Some(k) = stack.pop() {
+                            self.other_only.retain(|&x| x != k);
+                            stack.extend(par[k - 1].iter().copied());
+                        }
+                        rec["how"] = json!("git push");
+                    } else {
+                        let hex = self.commits.hex(c);
+                        self.env.remote_writer.update(&headref(b), &hex)?;
+                        rec["how"] = json!("git update-ref on the remote");
+                    }
+                }
+                "OtherDelete" => {
+                    if self.real_other_push {
+                        let spec = format!(":{}", headref(b));
+                        git(&self.env.other_dir, &["push", "-q", "origin", &spec])?;
+                        rec["how"] = json!("git push");
+                    } else {
+                        self.env.remote_writer.delete(&headref(b))?;
+                        rec["how"] = json!("git update-ref on the remote");
+                    }
+                }
+                "Fetch" => {
+                    let info = self.fetch()?;
+                    rec["changed"] = info["changed"].clone();
+                    rec["how"] = info["how"].clone();
+                    rec["probe"] = json!(self.import_probe()?);
+                }
+                "Push" => {
+                    self.push(&set, &mut rec)?;
+                    rec["probe"] = json!(self.import_probe()?);
+                }
+                other => return Err(format!("harness: unknown action {other}")),
+            }
+            rec["post"] = self.project()?;
+            Ok(())
+        }));
+        match r {
+            Ok(Ok(())) => rec,
+            Ok(Err(e)) => json!({"op": "error", "act": a, "b": b, "c": c, "set": set, "msg": e}),
+            Err(p) => json!({"op": "panic", "act": a, "b": b, "c": c, "set": set, "msg": p}),
+        }
+    }
+}
+
+fn same_state(exp: &Value, obs: &Value) -> bool {
+    let mut ok = true;
+    for f in ["local", "track", "remote"] {
+        ok &= exp[f] == obs[f];
+    }
+    let mut k1 = usizes(&exp["known"]);
+    let mut k2 = usizes(&obs["known"]);
+    k1.sort();
+    k2.sort();
+    ok && k1 == k2
+}
+
+struct Runner {
+    env: Option<Env>,
+    case_no: usize,
+    reuse: usize,
+    real_other_push: bool,
+}
+
+impl Runner {
+    fn env_for(&mut self, par: &[Vec<usize>]) -> Result<&mut Env, String> {
+        let stale = match &self.env {
+            Some(e) => e.par != par || e.cases >= self.reuse,
+            None => true,
+        };
+        if stale {
+            self.final_crosscheck()?;
+            self.env = Some(Env::new(par)?);
+        }
+        Ok(self.env.as_mut().unwrap())
+    }
+
+    fn final_crosscheck(&mut self) -> Result<(), String> {
+        if let Some(e) = &self.env {
+            let cli = git_refs(&e.remote_dir, "refs/heads")?;
+            let direct = list_refs(&e.remote_dir, "refs/heads");
+            if cli != direct {
+                return Err(format!("harness: remote ref files {direct:?} differ from git for-each-ref {cli:?}"));
+            }
+        }
+        Ok(())
+    }
+
+    fn run_case(&mut self, out: &mut Out, spec: &Value, src: &str) -> Result<(), String> {
+        self.case_no += 1;
+        let case_no = self.case_no;
+        let par: Vec<Vec<usize>> = spec["par"].as_array().ok_or("case without par")?.iter().map(usizes).collect();
+        let otheronly = usizes(&spec["otheronly"]);
+        let nb = spec["nb"].as_u64().unwrap_or(2) as usize;
+        if nb > MAX_BM {
+            return Err("too many bookmarks".into());
+        }
+        let real = self.real_other_push;
+        let env = self.env_for(&par)?;
+        let mut case = env.start(&otheronly, nb, real)?;
+        let init = case.project()?;
+        out.emit(&json!({"op": "reset", "case": case_no, "par": par, "otheronly": otheronly, "nb": nb,
+                         "src": src, "post": init}));
+        for s in spec["steps"].as_array().ok_or("case without steps")? {
+            let mut rec = case.step(s);
+            if let Some(exp) = s.get("post") {
+                rec["match"] = json!(rec.get("post").is_some_and(|p| same_state(exp, p)));
+            }
+            let stop = matches!(rec["op"].as_str(), Some("error") | Some("panic"));
+            out.emit(&rec);
+            if stop {
+                self.env = None;
+                break;
+            }
+        }
+        Ok(())
+    }
+
+    fn run_random(&mut self, out: &mut Out, rng: &mut Rng, max_steps: usize, nb: usize) -> Result<(), String> {
+        self.case_no += 1;
+        let case_no = self.case_no;
+        let par = vec![vec![], vec![1], vec![2], vec![1], vec![4]];
+        let otheronly: Vec<usize> = match rng.below(3) {
+            0 => vec![],
+            1 => vec![5],
+            _ => vec![4, 5],
+        };
+        let n = par.len();
+        let len = rng.range(3, max_steps);
+        let real = self.real_other_push;
+        let env = self.env_for(&par)?;
+        let mut case = env.start(&otheronly, nb, real)?;
+        let init = case.project()?;
+        out.emit(&json!({"op": "reset", "case": case_no, "par": par, "otheronly": otheronly, "nb": nb,
+                         "src": "rnd", "post": init}));
+        let mut known = usizes(&init["known"]);
+        let mut remote = usizes(&init["remote"]);
+        let mut failed = false;
+        for _ in 0..len {
+            let b = if rng.chance(3, 4) { 1 } else { rng.range(1, nb) };
+            let s = match rng.below(14) {
+                0 | 1 | 2 => json!({"a": "JjSet", "b": b, "c": *rng.pick(&known)}),
+                3 => json!({"a": "JjDelete", "b": b}),
+                4 | 5 => json!({"a": "OtherSet", "b": b, "c": rng.range(1, n)}),
+                6 if remote[b - 1] != 0 => json!({"a": "OtherDelete", "b": b}),
+                6 | 7 | 8 => json!({"a": "Fetch"}),
+                _ => {
+                    let set: Vec<usize> = if rng.chance(1, 2) {
+                        vec![b]
+                    } else {
+                        (1..=nb).filter(|_| rng.chance(2, 3)).collect()
+                    };
+                    let set = if set.is_empty() { vec![b] } else { set };
+                    json!({"a": "Push", "set": set})
+                }
+            };
+            let rec = case.step(&s);
+            let stop = matches!(rec["op"].as_str(), Some("error") | Some("panic"));
+            if let Some(p) = rec.get("post") {
+                known = usizes(&p["known"]);
+                remote = usizes(&p["remote"]);
+            }
+            out.emit(&rec);
+            if stop {
+                failed = true;
+                break;
+            }
+        }
+        if failed {
+            self.env = None;
+        }
+        Ok(())
+    }
+}
+
+pub fn run(opts: &Opts) -> Result<(), String> {
+    quiet_panics();
+    let mut out = Out::create(&opts.str("out", "/dev/stdout"))?;
+    let mut runner = Runner {
+        env: None,
+        case_no: 0,
+        reuse: opts.usize("reuse", 200),
+        real_other_push: opts.str("otherpush", "real") == "real",
+    };
+    if let Some(path) = opts.get("replay") {
+        let (shard, of) = (opts.usize("shard", 0), opts.usize("of", 1));
+        for (i, beh) in read_ndjson(path)?.iter().enumerate() {
+            if i % of == shard {
+                runner.run_case(&mut out, beh, "tlc")?;
+            }
+        }
+    }
+    let n = opts.usize("random", 0);
+    if n > 0 {
+        let mut rng = Rng::new(opts.u64("seed", 0));
+        let max_steps = opts.usize("maxsteps", 10);
+        let nb = opts.usize("nb", 2);
+        for _ in 0..n {
+            runner.run_random(&mut out, &mut rng, max_steps, nb)?;
+        }
+    }
+    runner.final_crosscheck()?;
+    out.finish();
+    Ok(())
+}
